@@ -48,6 +48,11 @@ func (propC10) Gen(r *Rng, tier string) *World {
 	g := NewGen(r, k)
 	w := &World{Prop: "C10"}
 	w.Prog = g.Program()
+	if r.P(0.03) {
+		// an and/or without operands (e.g. generated from an empty rule list):
+		// it compiles, and evaluating it is an operand-count error — at run time
+		w.Prog = If(g.Leaf(TBool), Op(PickS(r, []string{"and", "or", "&&"})), w.Prog)
+	}
 	w.Cfg = g.C
 	for i := range w.Cfg.Ops {
 		if w.Cfg.Ops[i].Kind == "fail" && r.P(0.4) {
